@@ -119,16 +119,18 @@ Fixpoint find_sib (name : bytes) (sibs : list enode) : option dhdr :=
   end.
 
 Definition sign_as (r : root) (h : holder) (name : bytes) (keys : list N) : option (list N) :=
+  (* DelegatedTargets::role_id: the name "targets" stands for the top-level role, which only a root knows;
+     any other name for a delegated role, which only a Delegations object knows (KeyHolder::role_keys) *)
   match h with
   | HRoot =>
-      if existsb (fun k => memN k (r_keys r)) keys then
+      if bytes_eqb name name_targets_role && existsb (fun k => memN k (r_keys r)) keys then
         match signed_role r 2 (dedup keys) with
         | Some sigs => Some (map s_by sigs)
         | None => None
         end
       else None
   | HDeleg dk sibs =>
-      match find_sib name sibs with
+      match (if bytes_eqb name name_targets_role then None else find_sib name sibs) with
       | None => None
       | Some hd =>
           let valid := filter (fun k => memN k (dh_keyids hd)) (filter (fun k => memN k dk) (dedup keys)) in
@@ -263,8 +265,10 @@ Definition ed_step (r : root) (st : red) (o : edop) : option red :=
       Some {| rd_sv := rd_sv st; rd_sexp := rd_sexp st; rd_tsv := rd_tsv st; rd_tsexp := Some e; rd_te := rd_te st; rd_top := rd_top st |}
   | OpDelegate name keys paths threshold expires version =>
       (* a new TargetsEditor for the role, signed with every key given (its own key holder lists them all
-         with threshold 1: no key, no signature, SigningKeysNotFound); then TargetsEditor::delegate_role *)
-      match keys, rd_te st with
+         with threshold 1: no key, no signature, SigningKeysNotFound; a role called "targets" is taken for the
+         top-level role, which that key holder does not know: SigningKeysNotFound); then
+         TargetsEditor::delegate_role *)
+      match (if bytes_eqb name name_targets_role then [] else keys), rd_te st with
       | _ :: _, Some te =>
           let node := ENode {| dh_name := name; dh_keyids := keys; dh_threshold := threshold; dh_paths := paths |}
                             version expires [] [] [] (dedup keys) in
